@@ -184,6 +184,13 @@ type ContractFile struct {
 	Props    []*PropertyDecl
 	Examples []*Example
 	Layouts  []*Layout
+	GhostVars []*GhostVar
+}
+
+// GhostVar: `ghost var name type` - specification-only global state (e.g. the effect clock of the file system model)
+type GhostVar struct {
+	Name string
+	Type string
 }
 
 // ---------- lexer ----------
@@ -559,8 +566,13 @@ func (p *parser) decl(cf *ContractFile) {
 		cf.Funcs = append(cf.Funcs, fc)
 	case "ghost":
 		p.next()
+		if p.acceptId("var") {
+			gv := &GhostVar{Name: p.ident(), Type: p.typeText()}
+			cf.GhostVars = append(cf.GhostVars, gv)
+			return
+		}
 		if !p.acceptId("field") {
-			p.fail("expected 'ghost field'")
+			p.fail("expected 'ghost field' or 'ghost var'")
 		}
 		owner := p.typeText()
 		i := strings.LastIndex(owner, ".")
